@@ -11,6 +11,8 @@ func init() {
 	vHarnesses["H_C04_catch"] = H_C04_catch
 	vHarnesses["H_C09_history"] = H_C09_history
 	vHarnesses["H_C11_allsol"] = H_C11_allsol
+	vHarnesses["H_C08_order"] = H_C08_order
+	vHarnesses["H_C08_sort"] = H_C08_sort
 	vHarnesses["H_C02_pair"] = H_C02_pair
 	vHarnesses["H_C02_rep"] = H_C02_rep
 	vHarnesses["H_C10_gen"] = H_C10_gen
@@ -90,4 +92,16 @@ func H_C02_pair(inst int) {
 func H_C02_rep(inst int) {
 	i := newFull()
 	engine.VH_C02_rep(&i.VM, inst)
+}
+
+// H_C08_order: order laws on triples of templates with symbolic leaves (pair = inst, third by case split).
+func H_C08_order(inst int) {
+	i := newFull()
+	engine.VH_C08_order(&i.VM, inst)
+}
+
+// H_C08_sort: sort/2 and keysort/2 on lists of length inst.
+func H_C08_sort(inst int) {
+	i := newFull()
+	engine.VH_C08_sort(&i.VM, inst)
 }
